@@ -283,8 +283,9 @@ ListComps ==
   \cup {C("step_eval", 1, l) : l \in Ls} \cup {C("step_path", 0, l) : l \in Ls}
 \* lists the assignment routine may legitimately find SHORTER than its targets (variable-degree mode): it pads with zeros
 PaddedLists == {c \in ListComps : c.k \in {"init_path", "step_path", "final_poly", "commit_caps"}}
-ShapeChk == Chk("Shape", ListComps, {}, {})
-AssignChk == Chk("Assign", ListComps, {}, {})
+\* (they read the LENGTHS of the lists, not their values: a separate field)
+ShapeChk == [id |-> "Shape", reads |-> {}, reads1 |-> {}, chals |-> {}, lens |-> ListComps]
+AssignChk == [id |-> "Assign", reads |-> {}, reads1 |-> {}, chals |-> {}, lens |-> ListComps]
 NativeChecks(db) == <<ShapeChk>> \o VanChecks(0) \o <<PowChk>> \o AllRounds(0, Cardinality(Layers(db)))
 \* circuit: the same groups of equality constraints.  In the variable-degree mode the circuit holds NL
 \* conditional layers; layer l is switched on by step_active (Part 3, V1: exactly the proof's own layers),
@@ -422,7 +423,7 @@ CircuitVerdict == Verdict(T.crer, T.cc, adv)
 Agree == Done => CircuitVerdict = nacc
 FS3 == T.fs3
 \* check-by-check refinement: the circuit list is the native list (ids, read sets, challenges), in order
-Refines == Disabled = {} /\ Mutant = "none" => /\ T.cc[1].id = "Assign" /\ T.nc[1].id = "Shape" /\ T.cc[1].reads = T.nc[1].reads
+Refines == Disabled = {} /\ Mutant = "none" => /\ T.cc[1].id = "Assign" /\ T.nc[1].id = "Shape" /\ T.cc[1].lens = T.nc[1].lens
                                              /\ Tail(T.cc) = Tail(T.nc)
 \* adequacy of the catalogue: every circuit check is the ONLY certain detector of some class (the consistency
 \* checks of the folding chain are always accompanied by the next link: there, a class it certainly detects)
